@@ -35,7 +35,7 @@ def lpc_of(t):
 def vals_src(trees):
     src = ["// generated values", "mixed deep(int n) { mixed v = ({ 1 }); while (n--) v = ({ v }); return v; }", "mixed v(int i) {", "  switch (i) {"]
     for i, t in enumerate(trees):
-        src.append("  case %d: return %s;" % (i, "deep(60)" if t == "DEEP" else lpc_of(t)))
+        src.append("  case %d: return %s;" % (i, "deep(30)" if t == "DEEP" else lpc_of(t)))
     src += ["  }", "  return 0;", "}"]
     return "\n".join(src) + "\n"
 
@@ -103,6 +103,16 @@ def run(tier, work):
                 out.append({"e": "RTO", "orig": json.dumps(ev["orig"], sort_keys=True), "back": json.dumps(ev.get("back", "none"), sort_keys=True), "err": ev["err"],
                             "static_kept": ev.get("static_kept", 0), "obref_kept": ev.get("obref_kept", 0), "id": ev["id"]})
         projs.append(out)
+    # vacuity guard: every generated value must have produced its round-trip events (a scenario-side failure, e.g. in the
+    # value encoder, would otherwise silently drop the value from the validated traces)
+    seen_var = {p["id"] for pr in projs for p in pr if p.get("e") == "RT"}
+    seen_obj = {p["id"] for pr in projs for p in pr if p.get("e") == "RTO"}
+    crashed_batches = {ex["id"] for ex in exs if vlib.crashed(ex)}
+    missing = [i for i in range(len(allt)) if i not in seen_var and ("rt%d" % (i - i % B)) not in crashed_batches]
+    missing_o = [i for i in range(len(allt)) if allt[i] != "DEEP" and i not in seen_obj and ("rt%d" % (i - i % B)) not in crashed_batches]
+    if missing or missing_o:
+        i = (missing or missing_o)[0]
+        raise vlib.Broken("no round-trip event for %d + %d generated values, e.g. #%d %s" % (len(missing), len(missing_o), i, allt[i] if allt[i] == "DEEP" else lpc_of(allt[i])))
     # ---- damaged texts
     rnd = random.Random(vlib.SEED)
     texts = sorted(set(texts))
@@ -170,7 +180,7 @@ def run(tier, work):
         sig = {"kind": "rejected", "event": bad.get("e")}
         if "id" in bad and bad.get("e") in ("RT", "RTO"):
             t = allt[bad["id"]]
-            src = "deep(60)" if t == "DEEP" else lpc_of(t)
+            src = "deep(30)" if t == "DEEP" else lpc_of(t)
             leaves = sorted(set(_leaf_kinds(t)))
             sig.update(err=bad.get("err"), leaf_kinds=leaves)
             what = "value %s: orig %s back %s err %s" % (src[:80], str(bad.get("orig"))[:160], str(bad.get("back"))[:160], bad.get("err"))
